@@ -410,6 +410,31 @@ theorem mutable_zero_refuted :
       [.ok, .out ⟨[1]⟩ 1, .out ⟨[2]⟩ 0] := by
   constructor <;> decide +kernel
 
+
+/-- **C16.26** (a delta beyond every horizon: `float('inf')`, and `nan`, which `count >= delta` never
+reaches either).  After any history, an event added with a delta `D > N + 1/2` gets a start beyond
+sample `N`: up to and including sample `N` it gives no item to any sample and is not over — so, with
+`starts_sorted` (no later event starts before it) and `next_after_history`, it blocks the queue and
+keeps a mixer without keep alive for the `N` samples; for an infinite delta this holds for every `N`. -/
+theorem beyond_horizon_never_starts [Add α] (zero : α) (keep : Bool) (ops : List (Op α)) (D : Rat)
+    (x : List α) (N : Nat) (hD : (N : Rat) + 1/2 < D) :
+    N < startTime ((srun zero (SState.init keep) ops).1.T + D) (srun zero (SState.init keep) ops).1.n ∧
+    ∀ m, m ≤ N →
+      term m (⟨startTime ((srun zero (SState.init keep) ops).1.T + D) (srun zero (SState.init keep) ops).1.n, x⟩ : SEv α)
+        = none ∧
+      ¬ (⟨startTime ((srun zero (SState.init keep) ops).1.T + D) (srun zero (SState.init keep) ops).1.n, x⟩ : SEv α).doneAt m := by
+  have hT := (logInv_run zero ops _ (logInv_init keep)).1
+  generalize (srun zero (SState.init keep) ops).1 = s at hT
+  have h1 := (startTime_early (T := s.T + D) (n := N) (by linarith)).2
+  have h2 : (nearest (s.T + D)).toNat ≤ startTime (s.T + D) s.n := by unfold startTime; omega
+  have h3 : N < startTime (s.T + D) s.n := by omega
+  refine ⟨h3, fun m hm => ⟨?_, ?_⟩⟩
+  · unfold term
+    rw [if_neg (by show ¬ startTime (s.T + D) s.n ≤ m; omega)]
+  · unfold SEv.doneAt
+    show ¬ startTime (s.T + D) s.n + x.length ≤ m
+    omega
+
 /-! non-vacuity: the statements are about non-trivial inputs -/
 
 -- the docstring example: [-1, 1, 4, 1, -3, -5, -7, -1], then the end
@@ -526,6 +551,8 @@ example : outAt (⟨.frac, 7/2, 0⟩ : PyNum) 0 [⟨0, [⟨.int, 1, 0⟩]⟩] = 
 example : outAt (⟨.complex, 0, 0⟩ : PyNum) 0 [⟨0, [⟨.frac, 1/2, 0⟩]⟩] = ⟨.complex, 1/2, 0⟩ := by decide +kernel
 -- idle_sample_is_zero: a gap between two events
 example : ∀ e ∈ ([⟨0, [1]⟩, ⟨3, [2]⟩] : List (SEv Int)), term 1 e = none := by decide
+-- beyond_horizon_never_starts: a delta beyond the horizon of 3 samples
+example : ((3 : Nat) : Rat) + 1/2 < 4 := by norm_num
 
 end ALV.Props.C16
 
